@@ -49,8 +49,43 @@ def search(pid, seed):
     return res
 
 
+BOUNDED = {
+    'C04': dict(what='constructors IndexedInstruments::new + generate_execution_instrument_map (iterator pipelines) checked on the REAL code: '
+                     'every tuple of distinct spot-instrument definitions over 3 exchanges x 4 pairs with shared asset names, every definition order; '
+                     'for every exchange map and every global index/name: only own indices translate, to the own exchange name, round trips are identity, '
+                     'order requests are addressed to the named instrument',
+                bound={'quick': 'up to 3 exchanges, up to 4 instruments per collection', 'thorough': 'up to 3 exchanges, up to 5 instruments per collection'}),
+}
+
+
 def post_checks(pid, tier, seed, evidence):
-    return []
+    """bounded stand-ins on the real code (labelled bounded, never counted in obligations/discharged)"""
+    if pid not in BOUNDED:
+        return []
+    binary = build_replay()
+    info = dict(BOUNDED[pid], bound=BOUNDED[pid]['bound'][tier], label='BOUNDED - not counted as proved')
+    viol = []
+    if not binary:
+        info['status'] = 'not run: replay crate unavailable (scratch source tree or build failure)'
+    else:
+        t0 = time.time()
+        p = subprocess.run(['timeout', '1800', binary, pid, str(seed), tier], stdout=subprocess.PIPE, stderr=subprocess.PIPE, text=True)
+        cases = 0
+        for ln in p.stderr.split('\n'):
+            if ln.startswith('cases evaluated:'):
+                cases = int(ln.split(':')[1])
+        for ln in p.stdout.split('\n'):
+            if ln.strip().startswith('{'):
+                r = json.loads(ln)
+                viol.append(dict(obligation=r['obligation'] if r['obligation'].startswith(pid + '.bounded') else r['obligation'] + '@bounded', kind='bounded stand-in on the real code',
+                                 text='', verifier_output='bounded enumeration found a failing configuration', input=r['input'],
+                                 observed='observed %s, expected %s' % (r['observed'], r['expected'])))
+        info.update(status='ran', cases=cases, failures=len(viol), wall_s=round(time.time() - t0, 2), exit_code=p.returncode)
+        if p.returncode != 0 and not viol:
+            info['status'] = 'replay binary failed (exit %s): %s' % (p.returncode, p.stderr[-500:])
+    if evidence is not None:
+        evidence['coverage'].setdefault('bounded_standins', []).append(info)
+    return viol
 
 
 def make_replay(pid, v, tier, seed):
